@@ -18,7 +18,14 @@ type srvCase struct {
 // ---- C20 ----
 
 func genC20(t *rapid.T) srvCase {
-	return srvCase{Ops: genSops(t, []string{"attach", "attach", "attach", "detach", "send", "send", "send", "send", "ack", "clear", "preinit"}, 3, 4, 14)}
+	ops := genSops(t, []string{"attach", "attach", "detach", "send", "send", "send", "send", "send", "ack", "clear", "preinit"}, 3, 4, 14)
+	// most histories start with an established pair so that sends are applicable
+	if rapid.IntRange(0, 4).Draw(t, "prefix") != 0 {
+		a := rapid.IntRange(0, 2).Draw(t, "a")
+		b := (a + 1 + rapid.IntRange(0, 1).Draw(t, "b")) % 3
+		ops = append([]sop{{Op: "attach", P: a, Q: b}, {Op: "attach", P: b, Q: a}}, ops...)
+	}
+	return srvCase{Ops: ops}
 }
 
 func checkC20(c srvCase) (o vstat.Outcome) {
